@@ -506,10 +506,20 @@ func (b *c01Builder) emit(d *c01Doc, n *c01Node, parent int, resIDs []string) in
 	var e []string
 	attrs := func() {
 		if n.box != nil {
-			e = append(e, fmt.Sprintf("/MediaBox [%d %d %d %d]", n.box[0], n.box[1], n.box[2], n.box[3]))
+			v := fmt.Sprintf("[%d %d %d %d]", n.box[0], n.box[1], n.box[2], n.box[3])
+			if rng.Chance(1, 8) {
+				v = c01Ref(b.add(&c01Obj{body: v}))
+				b.tags["mediabox:by-reference"] = true
+			}
+			e = append(e, "/MediaBox "+v)
 		}
 		if n.rot != nil {
-			e = append(e, fmt.Sprintf("/Rotate %d", *n.rot))
+			v := fmt.Sprint(*n.rot)
+			if rng.Chance(1, 8) {
+				v = c01Ref(b.add(&c01Obj{body: v}))
+				b.tags["rotate:by-reference"] = true
+			}
+			e = append(e, "/Rotate "+v)
 		}
 		if n.res >= 0 {
 			e = append(e, "/Resources "+resIDs[n.res])
@@ -602,6 +612,9 @@ func (b *c01Builder) emit(d *c01Doc, n *c01Node, parent int, resIDs []string) in
 
 // ---------- the physical file
 
+// c01Hybrid: also write hybrid-reference revisions
+var c01Hybrid = true
+
 type c01Phys struct {
 	data []byte
 	desc string
@@ -691,18 +704,22 @@ func (b *c01Builder) write(root int, stale bool) c01Phys {
 			revs[r].xrefNum = next
 			next++
 			b.tags["xref:stream"] = true
+		} else if c01Hybrid && rng.Chance(1, 3) {
+			revs[r].hybrid = true
+			revs[r].xrefNum = next
+			next++
+			b.tags["xref:hybrid"] = true
 		} else {
 			b.tags["xref:table"] = true
 		}
 	}
-	// hybrid files are not generated: a revision with a table has no packed objects
 	final := make([]int, n)
 	for id := 0; id < n; id++ {
 		final[id] = rng.Intn(nrev)
 	}
 	packNum := map[int]int{}
 	place := func(r int, po pdfObj, canPack bool) {
-		if canPack && revs[r].xrefStm && rng.Chance(1, 2) {
+		if canPack && (revs[r].xrefStm || revs[r].hybrid) && rng.Chance(1, 2) {
 			sn, ok := packNum[r]
 			if !ok || rng.Chance(1, 5) {
 				sn = next
@@ -749,7 +766,16 @@ func (b *c01Builder) write(root int, stale bool) c01Phys {
 	}
 	pdfEOL = b.eol
 	pdfHeader = []string{"%PDF-1.4", "%PDF-1.5", "%PDF-1.7", "%PDF-2.0"}[rng.Intn(4)]
+	pdfTight = rng.Chance(1, 4)
+	pdfComments = rng.Chance(1, 4)
+	if pdfTight {
+		b.tags["syntax:tight"] = true
+	}
+	if pdfComments {
+		b.tags["syntax:comments"] = true
+	}
 	w := pdfWrite(revs)
+	pdfTight, pdfComments = false, false
 	pdfEOL = "\n"
 	pdfHeader = "%PDF-1.7"
 	return c01Phys{data: w.data}
@@ -822,6 +848,8 @@ type c01Read struct {
 	v     V
 	err   string
 	pages [][]string
+	boxes [][]float64
+	rots  []int
 	count int
 }
 
@@ -869,6 +897,8 @@ func c01ReadImpl(path string) (res c01Read) {
 				ts = append(ts, f.Text)
 			}
 			out.pages = append(out.pages, ts)
+			out.boxes = append(out.boxes, box)
+			out.rots = append(out.rots, pg.Rotate())
 			pv = append(pv, c01PageV(box, pg.Rotate(), ts))
 		}
 		out.v = L(I(0), I(n), L(pv...))
@@ -953,6 +983,11 @@ func init() {
 				if ok {
 					r.Check(got.count == len(d.pages), "page-count", fmt.Sprintf("page count %d, the tree has %d page leaves; layout: %s", got.count, len(d.pages), desc), replay)
 					for i := 0; i < len(d.pages) && i < len(got.pages); i++ {
+						wb := d.pages[i].box
+						gb := got.boxes[i]
+						r.Check(len(gb) == 4 && int(gb[0]) == wb[0] && int(gb[1]) == wb[1] && int(gb[2]) == wb[2] && int(gb[3]) == wb[3], "page-box",
+							fmt.Sprintf("page %d has MediaBox %v, read as %v; layout: %s", i+1, wb, gb, desc), replay)
+						r.Check(got.rots[i] == d.pages[i].rot, "page-rotate", fmt.Sprintf("page %d has Rotate %d, read as %d; layout: %s", i+1, d.pages[i].rot, got.rots[i], desc), replay)
 						want := d.pages[i].expect
 						same := len(want) == len(got.pages[i])
 						for k := 0; same && k < len(want); k++ {
